@@ -58,6 +58,11 @@ func genElem(r *rand.Rand) V {
 	if r.Intn(6) == 0 {
 		return V{T: 'N'}
 	}
+	if r.Intn(14) == 0 {
+		// values that are not nil although there is nothing behind them: an element like any other (typed nil pointers;
+		// never 5:2 / 5:3 next to 20:1 / 20:2, which are the same values)
+		return []V{{T: 'o', Ty: 5, ID: 1}, {T: 'o', Ty: 20, ID: 3}, {T: 'o', Ty: 20, ID: 4}, {T: 'o', Ty: 27, ID: 1}, {T: 'o', Ty: 20, ID: 1}}[r.Intn(5)]
+	}
 	return genLeaf(r)
 }
 
@@ -601,7 +606,15 @@ func genNest(r *rand.Rand, id string, tier string) string {
 		case 1:
 			ops = append(ops, "pop")
 		case 6:
-			ops = append(ops, fmt.Sprintf("ppol %d", []int{0, 1, 2, 3, 4, 6, 6, 7}[r.Intn(8)])) // the option holds on the push-policy path as well (6: a policy that rejects Stacks itself)
+			switch r.Intn(4) {
+			case 0:
+				// a Stack can also arrive by Replace, Insert or Marshal (none of them is Push: the option does not apply), and
+				// IsNesting is about what is there, however it came
+				ops = append(ops, []string{fmt.Sprintf("rep %s %d", genNestVal(r), r.Intn(3)), fmt.Sprintf("ins %s %d", genNestVal(r), r.Intn(3)),
+					"marshal A [ s414e44 A [ s4f52 i1 ] i2 ]", "marshal A [ s434f4e444954494f4e s6b Oc1 A [ s4c495354 i1 ] ]"}[r.Intn(4)])
+			default:
+				ops = append(ops, fmt.Sprintf("ppol %d", []int{0, 1, 2, 3, 4, 6, 6, 7}[r.Intn(8)])) // the option holds on the push-policy path as well (6: a policy that rejects Stacks itself)
+			}
 		default:
 			var vs []string
 			for j, m := 0, r.Intn(5); j < m; j++ {
